@@ -118,14 +118,17 @@ def guardedAccess (all : List TypeFacts) (t : TypeFacts) (mi : Nat) : Bool :=
 def readersPure (all : List TypeFacts) (t : TypeFacts) (mi : Nat) : Bool :=
   (effAcc all t (fuelOf t) mi .n).all (fun a => !a.write || a.held != .r)
 
-/-- critical sections on the receiver's lock executed by one call (static upper bound); an acquire reached
-while the lock is already held is a re-entry (`noReentry`), not a further section -/
-def sectionCount (t : TypeFacts) : Nat → Nat → Nat
-  | 0, _ => 2
+/-- modes of the critical sections on the receiver's lock that one call executes (own sections, then those
+of same-receiver callees entered without the lock; a static upper bound). An acquire reached while the lock
+is already held is a re-entry (`noReentry`), not a further section. -/
+def sectionModes (t : TypeFacts) : Nat → Nat → List Held
+  | 0, _ => [.w, .w]
   | fuel + 1, mi =>
     let m := getM t mi
-    m.sections.length +
-      (m.calls.map (fun c => if c.via == .own && c.held == .n then sectionCount t fuel c.callee else 0)).sum
+    m.sections.map (·.mode) ++
+      m.calls.flatMap (fun c => if c.via == .own && c.held == .n then sectionModes t fuel c.callee else [])
+
+def sectionCount (t : TypeFacts) (fuel mi : Nat) : Nat := (sectionModes t fuel mi).length
 
 def releasesOk (t : TypeFacts) : Nat → Nat → Bool
   | 0, _ => false
@@ -166,12 +169,23 @@ def handoutOk (all : List TypeFacts) (t : TypeFacts) (h : Handout) : Bool :=
 def noHandout (all : List TypeFacts) (t : TypeFacts) (mi : Nat) : Bool :=
   (effHandouts t (fuelOf t) mi).all (handoutOk all t)
 
+/-- accesses of one call to guarded fields, with effective lock states -/
+def guardedAccs (all : List TypeFacts) (t : TypeFacts) (mi : Nat) : List EAcc :=
+  (effAcc all t (fuelOf t) mi .n).filter (fun a => guarded all t a.field)
+
+/-- the facts of a row are self-consistent: accesses labelled "lock held" carry the mode of the call's first
+critical section (a sanity condition on the extractor's output, needed to read a row as monitor code) -/
+def factsConsistent (all : List TypeFacts) (t : TypeFacts) (mi : Nat) : Bool :=
+  ((guardedAccs all t mi).filter (fun a => a.held != .n)).all
+    (fun a => (sectionModes t (fuelOf t) mi).head? == some a.held)
+
 /-- the discipline of one method. Unexported helpers are judged inside their exported callers (through the
 closures above); on their own they only must not leak or nest a section. -/
 def methodOkT (all : List TypeFacts) (t : TypeFacts) (mi : Nat) : Bool :=
   let m := getM t mi
   if m.exported then
-    noReentry t mi && guardedAccess all t mi && readersPure all t mi && singleSection t mi && noHandout all t mi
+    noReentry t mi && guardedAccess all t mi && readersPure all t mi && singleSection t mi && noHandout all t mi &&
+      factsConsistent all t mi
   else
     m.sections.all (fun s => !s.nested && s.release != .leak)
 
